@@ -70,6 +70,8 @@ pub fn vio_read_take_n<S: VRead>(s: &mut S, limit: &mut u64, buf: &mut [u8]) -> 
             && final(s).pos() == old(s).pos() + r->Ok_0 && *final(limit) == *old(limit) - r->Ok_0
             && final(buf)@.subrange(0, r->Ok_0 as int) == old(s).data().subrange(old(s).pos() as int, old(s).pos() + r->Ok_0),
         r is Err ==> *final(limit) == *old(limit),
+        // Take::read: Ok(0) only when the allowance is used up, the buffer is empty, or the inner source is at its end (Read contract)
+        (r is Ok && r->Ok_0 == 0) ==> (old(buf)@.len() == 0 || *old(limit) == 0 || srem(old(s)) == 0),
 { unimplemented!() }
 
 /// a byte slice used as a `Read` source (`&[u8]` implements Read: it yields its bytes in order)
